@@ -1,14 +1,525 @@
 package main
 
+import (
+	"strconv"
+	"encoding/json"
+	"fmt"
+	"go/types"
+	"os"
+	"os/exec"
+	"path/filepath"
+	"sort"
+	"strings"
+
+	"golang.org/x/tools/go/ssa"
+)
+
+// Counterexample extraction and replay.
+//
+// For a failed obligation the stand-alone query is handed to z3 5.1 (Python API, MBQI on): a model gives values for
+// the function's inputs. Inputs of "plain" types (integers, booleans, strings, slices of those, flat structs of those,
+// pointers to such structs) are turned into Go literals, a test calling the REAL function with them is generated and
+// injected with `go test -overlay`. The replay oracle is the run-time check itself: the call must panic. For failed
+// postconditions/invariants there is no generic dynamic oracle, those are reported with `no-failing-input-found`
+// unless a hand-written replay exists.
+
 // Cex is a counterexample for a failed obligation, replayed on the real code where one could be extracted.
 type Cex struct {
-	Model      map[string]string `json:"model,omitempty"`
-	Source     string            `json:"source,omitempty"` // how the model was found
-	Pkg        string            `json:"pkg,omitempty"`
-	TestFile   string            `json:"test_file,omitempty"`
-	Run        string            `json:"run,omitempty"`
-	Reproduced bool              `json:"reproduced"`
-	Output     string            `json:"output,omitempty"`
+	Source     string   `json:"source,omitempty"` // how the model was found
+	Inputs     []string `json:"inputs,omitempty"` // Go literals of the arguments (receiver first)
+	Pkg        string   `json:"pkg,omitempty"`
+	TestFile   string   `json:"test_file,omitempty"`
+	Run        string   `json:"run,omitempty"`
+	Reproduced bool     `json:"reproduced"`
+	Output     string   `json:"output,omitempty"`
+	Note       string   `json:"note,omitempty"`
 }
 
-func searchCounterexample(prop string, f failure, tier string) *Cex { return nil }
+// TypeDesc describes how to read a value of a Go type out of a model and how to print it as a Go literal.
+type TypeDesc struct {
+	Kind   string      `json:"kind"` // int | bool | string | slice | struct | ptr
+	Go     string      `json:"go"`   // Go type as written in the test file
+	Elem   *TypeDesc   `json:"elem,omitempty"`
+	EHeap  string      `json:"eheap,omitempty"`  // slice: entry element heap term
+	Selem  string      `json:"selem,omitempty"`  // slice: element read function
+	Sort   string      `json:"sort,omitempty"`   // struct: SMT datatype sort (accessors <sort>_f<i>)
+	Fields []FieldDesc `json:"fields,omitempty"` // struct / ptr-to-struct
+}
+
+type FieldDesc struct {
+	Name string   `json:"name"`
+	Type TypeDesc `json:"type"`
+	Heap string   `json:"heap,omitempty"` // ptr-to-struct: entry heap array of this field
+}
+
+type CexPlan struct {
+	Pkg     string      `json:"pkg"`      // package directory relative to the repository
+	PkgName string      `json:"pkg_name"`
+	Call    string      `json:"call"`     // "%s" placeholders are the arguments in order
+	Imports [][2]string `json:"imports"` // (path, package name)
+	Dict    *CexDict    `json:"dict,omitempty"`
+	Params  []ParamDesc `json:"params"`
+}
+
+type ParamDesc struct {
+	Name string   `json:"name"`
+	Term string   `json:"term"`
+	Type TypeDesc `json:"type"`
+}
+
+// buildCexPlan returns nil when some input is of a type we cannot construct from a model.
+func buildCexPlan(g *Gen) *CexPlan {
+	f := g.f
+	if f.Pkg == nil || g.entry == nil || f.Parent() != nil {
+		return nil
+	}
+	importNames := map[string]string{}
+	qual := func(p *types.Package) string {
+		if p == f.Pkg.Pkg {
+			return ""
+		}
+		importNames[p.Path()] = p.Name()
+		return p.Name()
+	}
+	var desc func(t types.Type, depth int) (TypeDesc, bool)
+	desc = func(t types.Type, depth int) (TypeDesc, bool) {
+		gs := types.TypeString(t, qual)
+		switch u := t.Underlying().(type) {
+		case *types.Basic:
+			switch {
+			case u.Info()&types.IsBoolean != 0:
+				return TypeDesc{Kind: "bool", Go: gs}, true
+			case u.Info()&types.IsString != 0:
+				return TypeDesc{Kind: "string", Go: gs}, true
+			case u.Info()&types.IsInteger != 0:
+				return TypeDesc{Kind: "int", Go: gs}, true
+			}
+		case *types.Slice:
+			if depth > 2 {
+				return TypeDesc{}, false
+			}
+			ed, ok := desc(u.Elem(), depth+1)
+			if !ok {
+				return TypeDesc{}, false
+			}
+			h, okh := g.entry.heap["E:"+elemKey(u.Elem())]
+			if !okh {
+				return TypeDesc{}, false
+			}
+			return TypeDesc{Kind: "slice", Go: gs, Elem: &ed, EHeap: h.S, Selem: g.w.selemFn(u.Elem())}, true
+		case *types.Struct:
+			if depth > 2 {
+				return TypeDesc{}, false
+			}
+			td := TypeDesc{Kind: "struct", Go: gs, Sort: g.w.sortOf(t)}
+			for i := 0; i < u.NumFields(); i++ {
+				fd, ok := desc(u.Field(i).Type(), depth+1)
+				if !ok {
+					return TypeDesc{}, false
+				}
+				td.Fields = append(td.Fields, FieldDesc{Name: u.Field(i).Name(), Type: fd})
+			}
+			return td, true
+		case *types.Pointer:
+			stt, ok := u.Elem().Underlying().(*types.Struct)
+			if !ok || depth > 1 {
+				return TypeDesc{}, false
+			}
+			td := TypeDesc{Kind: "ptr", Go: types.TypeString(u.Elem(), qual)}
+			for i := 0; i < stt.NumFields(); i++ {
+				ft := stt.Field(i).Type()
+				var fd TypeDesc
+				var ok bool
+				switch ft.Underlying().(type) {
+				case *types.Interface, *types.Signature, *types.Map, *types.Chan, *types.Pointer:
+					// left at its zero value in the literal (nil): fine for a counterexample search that only needs the plain fields
+					fd, ok = TypeDesc{Kind: "zero", Go: types.TypeString(ft, qual)}, true
+				default:
+					fd, ok = desc(ft, depth+1)
+				}
+				if !ok {
+					return TypeDesc{}, false
+				}
+				h, okh := g.entry.heap[fldKey("obj:"+types.TypeString(u.Elem(), nil), i)]
+				if !okh && fd.Kind != "zero" {
+					return TypeDesc{}, false
+				}
+				td.Fields = append(td.Fields, FieldDesc{Name: stt.Field(i).Name(), Type: fd, Heap: h.S})
+			}
+			return td, true
+		}
+		return TypeDesc{}, false
+	}
+	plan := &CexPlan{PkgName: f.Pkg.Pkg.Name()}
+	if rel, err := filepath.Rel(repoDir(), filepath.Dir(g.w.prog.Fset.Position(f.Pos()).Filename)); err == nil {
+		plan.Pkg = rel
+	} else {
+		return nil
+	}
+	var args []string
+	for _, prm := range f.Params {
+		td, ok := desc(prm.Type(), 0)
+		if !ok {
+			return nil
+		}
+		term, ok := g.vals[prm]
+		if !ok {
+			return nil
+		}
+		plan.Params = append(plan.Params, ParamDesc{Name: prm.Name(), Term: term.S, Type: td})
+		args = append(args, "%s")
+	}
+	if f.Signature.Recv() != nil {
+		if len(args) == 0 {
+			return nil
+		}
+		plan.Call = "(" + args[0] + ")." + f.Name() + "(" + strings.Join(args[1:], ", ") + ")"
+	} else {
+		plan.Call = f.Name() + "(" + strings.Join(args, ", ") + ")"
+	}
+	if f.Signature.Variadic() && len(args) > 0 {
+		plan.Call = strings.TrimSuffix(plan.Call, ")") + "...)"
+	}
+	plan.Dict = collectDict(f, qual)
+	for p, n := range importNames {
+		plan.Imports = append(plan.Imports, [2]string{p, n})
+	}
+	sort.Slice(plan.Imports, func(i, j int) bool { return plan.Imports[i][0] < plan.Imports[j][0] })
+	return plan
+}
+
+// panicKinds: obligations whose violation is observable as a run-time panic of the function itself.
+var panicKinds = map[string]bool{"index": true, "slice": true, "div": true, "nil": true, "nilmap": true, "makeslice": true, "panic": true}
+
+var cexPlans = map[string]*CexPlan{} // function name -> plan (filled by the driver from the unit reports)
+
+func searchCounterexample(prop string, f failure, tier string) *Cex {
+	plan := cexPlans[f.Func]
+	if plan == nil || f.Ob.SMTFile == "" || !panicKinds[f.Ob.Kind] {
+		return nil
+	}
+	pj, _ := json.Marshal(plan)
+	planFile := f.Ob.SMTFile + ".plan.json"
+	os.WriteFile(planFile, pj, 0644)
+	to := "20"
+	if tier == "thorough" {
+		to = "60"
+	}
+	cmd := exec.Command("python3", filepath.Join(verifDir(), "tools", "cex.py"), f.Ob.SMTFile, planFile, to)
+	out, err := cmd.Output()
+	if err != nil {
+		return &Cex{Source: "z3 5.1 (MBQI) on the stand-alone query", Note: "model search failed: " + lastLines(string(out), 2)}
+	}
+	var res struct {
+		Status string   `json:"status"`
+		Args   []string `json:"args"`
+		Note   string   `json:"note"`
+	}
+	if json.Unmarshal(out, &res) != nil || res.Status != "sat" {
+		return &Cex{Source: "z3 5.1 (MBQI) on the stand-alone query", Note: "no model: " + res.Status + " " + res.Note}
+	}
+	cex := &Cex{Source: "model of the negated obligation found by z3 5.1 (MBQI on)", Inputs: res.Args, Pkg: plan.Pkg, Run: "TestGovcCounterexample"}
+	var ia []interface{}
+	for _, a := range res.Args {
+		ia = append(ia, a)
+	}
+	var sb strings.Builder
+	fmt.Fprintf(&sb, "package %s\n\nimport (\n\t\"testing\"\n", plan.PkgName)
+	joined := strings.Join(res.Args, " ")
+	for _, im := range plan.Imports {
+		if strings.Contains(joined, im[1]+".") {
+			fmt.Fprintf(&sb, "\t%q\n", im[0])
+		}
+	}
+	sb.WriteString(")\n\n")
+	fmt.Fprintf(&sb, "// Counterexample for %s/%s (%s), generated from the solver's model.\nfunc TestGovcCounterexample(t *testing.T) {\n", f.Func, f.Ob.Name, f.Ob.Pos)
+	sb.WriteString("\tdefer func() {\n\t\tif r := recover(); r != nil {\n\t\t\tt.Fatalf(\"DEFECT-REPRODUCED: %v\", r)\n\t\t}\n\t}()\n")
+	fmt.Fprintf(&sb, "\t"+plan.Call+"\n}\n", ia...)
+	testFile := strings.TrimSuffix(f.Ob.SMTFile, ".smt2") + "_cex_test.go"
+	os.WriteFile(testFile, []byte(sb.String()), 0644)
+	cex.TestFile = testFile
+	_, o := runReplayTest(plan.Pkg, testFile, cex.Run)
+	cex.Output = lastLines(o, 6)
+	cex.Reproduced = strings.Contains(o, "DEFECT-REPRODUCED")
+	if !cex.Reproduced {
+		if s := dictionarySearch(plan, res.Args, f); s != nil && s.Reproduced {
+			s.Inputs = res.Args
+			s.Note = "the model's own inputs (field `inputs`) did not reproduce; the search found the input shown in `output`"
+			return s
+		}
+	}
+	return cex
+}
+
+// used by the unit runner to attach plans
+func cexPlanFor(g *Gen) *CexPlan {
+	defer func() { recover() }()
+	return buildCexPlan(g)
+}
+
+var _ = ssa.NaiveForm
+
+// ---------- dictionary-guided search (second attempt when the model does not replay) ----------
+//
+// A counterexample of the modular VC need not be one of the real function: callees and loops are abstracted by their
+// contracts (or by nothing, in a sweep). When the model does not reproduce, the real function is run on a small product
+// of candidate inputs built from the model values and from the constants and slice literals that occur in the function
+// itself. This is only a search for a failing input of an obligation that has ALREADY failed; it can never make a check pass.
+
+type CexDict struct {
+	Ints   []int64              `json:"ints,omitempty"`
+	Strs   []string             `json:"strs,omitempty"`
+	Slices map[string][][]int64 `json:"slices,omitempty"` // element Go type (as printed in the test) -> literals
+}
+
+func collectDict(f *ssa.Function, qual types.Qualifier) *CexDict {
+	d := &CexDict{Slices: map[string][][]int64{}}
+	seenI, seenS := map[int64]bool{}, map[string]bool{}
+	for _, b := range f.Blocks {
+		for _, in := range b.Instrs {
+			for _, op := range in.Operands(nil) {
+				if c, ok := (*op).(*ssa.Const); ok && c.Value != nil {
+					if isInt(c.Type()) {
+						if v, ok := constInt64(c); ok && !seenI[v] && len(d.Ints) < 24 {
+							seenI[v] = true
+							d.Ints = append(d.Ints, v)
+						}
+					} else if isString(c.Type()) {
+						if s := constString(c); !seenS[s] && len(d.Strs) < 12 && len(s) < 200 {
+							seenS[s] = true
+							d.Strs = append(d.Strs, s)
+						}
+					}
+				}
+			}
+			al, ok := in.(*ssa.Alloc)
+			if !ok {
+				continue
+			}
+			at, ok := al.Type().Underlying().(*types.Pointer).Elem().Underlying().(*types.Array)
+			if !ok || !isInt(at.Elem()) || at.Len() > 64 {
+				continue
+			}
+			vals := make([]int64, at.Len())
+			n := 0
+			for _, r := range *al.Referrers() {
+				ia, ok := r.(*ssa.IndexAddr)
+				if !ok {
+					continue
+				}
+				ic, ok := ia.Index.(*ssa.Const)
+				if !ok {
+					continue
+				}
+				idx, ok := constInt64(ic)
+				if !ok || idx < 0 || idx >= at.Len() {
+					continue
+				}
+				for _, r2 := range *ia.Referrers() {
+					if s, ok := r2.(*ssa.Store); ok && s.Addr == ia {
+						if vc, ok := s.Val.(*ssa.Const); ok {
+							if v, ok := constInt64(vc); ok {
+								vals[idx] = v
+								n++
+							}
+						}
+					}
+				}
+			}
+			if n > 0 {
+				k := types.TypeString(at.Elem(), qual)
+				d.Slices[k] = append(d.Slices[k], vals)
+			}
+		}
+	}
+	return d
+}
+
+func constInt64(c *ssa.Const) (int64, bool) {
+	if c.Value == nil {
+		return 0, false
+	}
+	defer func() { recover() }()
+	return c.Int64(), true
+}
+
+func constString(c *ssa.Const) string {
+	defer func() { recover() }()
+	s := c.Value.ExactString()
+	if u, err := strconvUnquote(s); err == nil {
+		return u
+	}
+	return s
+}
+
+type leaf struct {
+	typ   string
+	cands []string
+}
+
+func intLits(vs []int64) string {
+	var ss []string
+	for _, v := range vs {
+		ss = append(ss, fmt.Sprint(v))
+	}
+	return strings.Join(ss, ", ")
+}
+
+// leavesOf flattens a value of type td into leaf variables; returns the Go expression over those variables.
+func leavesOf(td TypeDesc, model string, d *CexDict, leaves *[]leaf) string {
+	add := func(typ string, cands []string) string {
+		seen := map[string]bool{}
+		var uniq []string
+		for _, c := range cands {
+			if c != "" && !seen[c] {
+				seen[c] = true
+				uniq = append(uniq, c)
+			}
+		}
+		*leaves = append(*leaves, leaf{typ, uniq})
+		return fmt.Sprintf("v%d", len(*leaves)-1)
+	}
+	switch td.Kind {
+	case "bool":
+		return add(td.Go, []string{model, "true", "false"})
+	case "int":
+		c := []string{model, "0", "1"}
+		for _, v := range d.Ints {
+			if v >= 0 && len(c) < 10 {
+				c = append(c, fmt.Sprint(v))
+				if v > 0 {
+					c = append(c, fmt.Sprint(v-1))
+				}
+			}
+		}
+		return add(td.Go, c)
+	case "string":
+		c := []string{model, td.Go + `("")`}
+		for _, s := range d.Strs {
+			if len(c) < 8 {
+				c = append(c, fmt.Sprintf("%s(%q)", td.Go, s))
+			}
+		}
+		return add(td.Go, c)
+	case "slice":
+		c := []string{model, td.Go + "{}"}
+		if td.Elem != nil && td.Elem.Kind == "int" {
+			lits := d.Slices[td.Elem.Go]
+			if len(lits) > 4 {
+				lits = lits[:4]
+			}
+			for _, a := range lits {
+				c = append(c, fmt.Sprintf("%s{%s}", td.Go, intLits(a)))
+			}
+			for i, a := range lits {
+				for j, b := range lits {
+					if i == j || len(c) > 14 {
+						continue
+					}
+					c = append(c, fmt.Sprintf("%s{%s}", td.Go, intLits(append(append([]int64{}, a...), b[:1]...))))
+					c = append(c, fmt.Sprintf("%s{%s}", td.Go, intLits(append(append([]int64{}, a...), b...))))
+				}
+			}
+		}
+		return add(td.Go, c)
+	case "struct", "ptr":
+		// per-field models are not available separately here: re-derive them from the struct literal is not possible, so the
+		// struct's fields vary over their dictionaries and the whole model literal is one extra candidate of the parent
+		var fs []string
+		for _, f := range td.Fields {
+			if f.Type.Kind == "zero" {
+				continue
+			}
+			fs = append(fs, f.Name+": "+leavesOf(f.Type, "", d, leaves))
+		}
+		if td.Kind == "ptr" {
+			return "&" + td.Go + "{" + strings.Join(fs, ", ") + "}"
+		}
+		return td.Go + "{" + strings.Join(fs, ", ") + "}"
+	}
+	return model
+}
+
+func dictionarySearch(plan *CexPlan, modelArgs []string, f failure) *Cex {
+	if plan.Dict == nil {
+		return nil
+	}
+	var leaves []leaf
+	var exprs []interface{}
+	for i, p := range plan.Params {
+		m := ""
+		if i < len(modelArgs) {
+			m = modelArgs[i]
+		}
+		exprs = append(exprs, leavesOf(p.Type, m, plan.Dict, &leaves))
+	}
+	// keep the product small
+	total := func() int {
+		n := 1
+		for _, l := range leaves {
+			if len(l.cands) > 0 {
+				n *= len(l.cands)
+			}
+			if n > 1<<30 {
+				return n
+			}
+		}
+		return n
+	}
+	for total() > 300000 {
+		big := 0
+		for i := range leaves {
+			if len(leaves[i].cands) > len(leaves[big].cands) {
+				big = i
+			}
+		}
+		if len(leaves[big].cands) <= 1 {
+			break
+		}
+		leaves[big].cands = leaves[big].cands[:len(leaves[big].cands)-1]
+	}
+	var sb strings.Builder
+	fmt.Fprintf(&sb, "package %s\n\nimport (\n\t\"fmt\"\n\t\"testing\"\n", plan.PkgName)
+	var body strings.Builder
+	for i, l := range leaves {
+		if len(l.cands) == 0 {
+			l.cands = []string{"*new(" + l.typ + ")"}
+		}
+		fmt.Fprintf(&body, "\tc%d := []%s{%s}\n", i, l.typ, strings.Join(l.cands, ", "))
+	}
+	for i := range leaves {
+		fmt.Fprintf(&body, "\tfor _, v%d := range c%d {\n", i, i)
+	}
+	call := fmt.Sprintf(plan.Call, exprs...)
+	fmt.Fprintf(&body, "\t\tif p := govcTry(func() { %s }); p != nil {\n\t\t\tt.Fatalf(\"DEFECT-REPRODUCED: %%v on input %%s\", p, fmt.Sprintf(\"%%#v\", []interface{}{%s}))\n\t\t}\n", call, joinVars(len(leaves)))
+	for range leaves {
+		body.WriteString("\t}\n")
+	}
+	for _, im := range plan.Imports {
+		if strings.Contains(body.String(), im[1]+".") {
+			fmt.Fprintf(&sb, "\t%q\n", im[0])
+		}
+	}
+	sb.WriteString(")\n\nfunc govcTry(f func()) (p interface{}) {\n\tdefer func() { p = recover() }()\n\tf()\n\treturn nil\n}\n\n")
+	fmt.Fprintf(&sb, "// Search for a failing input of %s/%s over the model values and the function's own constants.\nfunc TestGovcCounterexampleSearch(t *testing.T) {\n%s}\n", f.Func, f.Ob.Name, body.String())
+	testFile := strings.TrimSuffix(f.Ob.SMTFile, ".smt2") + "_search_test.go"
+	os.WriteFile(testFile, []byte(sb.String()), 0644)
+	_, o := runReplayTest(plan.Pkg, testFile, "TestGovcCounterexampleSearch")
+	cex := &Cex{Source: "search over the model values and the constants/slice literals of the function (the solver's model did not replay)", Pkg: plan.Pkg, TestFile: testFile, Run: "TestGovcCounterexampleSearch"}
+	cex.Output = lastLines(o, 4)
+	if len(cex.Output) > 1500 {
+		cex.Output = cex.Output[:1500]
+	}
+	cex.Reproduced = strings.Contains(o, "DEFECT-REPRODUCED")
+	return cex
+}
+
+func joinVars(n int) string {
+	var vs []string
+	for i := 0; i < n; i++ {
+		vs = append(vs, fmt.Sprintf("v%d", i))
+	}
+	return strings.Join(vs, ", ")
+}
+
+func strconvUnquote(s string) (string, error) { return strconv.Unquote(s) }
